@@ -64,11 +64,55 @@ CLAIMS["C20"] = dict(
 
 PENDING = "check not built yet in this round (see DESIGN.md section 5 for the plan); nothing is claimed for it"
 
+TECHNIQUE = {
+ "C01": "Lean 4 proof (generic Merkle-Damgard streaming invariant, HMAC/PBKDF2 refinement, round-function identities, CRC algebra) + extracted constants + lock-step correspondence",
+ "C02": "Lean 4 proof (CTR stream-state invariant for every block function and routing; AES-NI instruction model = FIPS-197) + extracted constants + lock-step correspondence",
+ "C03": "Lean 4 proof (index arithmetic of the SSE4.2 split, lane-level SSE2 schedule, CRC32 instruction algebra) + every feature-subset build compared with the Spec",
+ "C04": "Lean 4 proof (inductive invariants of the socket/pollfd tables; every model trace admissible) + executable specification monitor over the real event loop's traces",
+ "C05": "Lean 4 proof (32 queues + minq = stable priority queue; run admissible) + executable specification monitor over the real event loop's traces",
+ "C07": "Lean 4 proof (window/queue invariants refining an ideal byte stream) + lock-step correspondence over a scripted transport",
+ "C08": "Lean 4 proof (step invariant: no out-of-bounds access, one outcome per step, bounded body) + lock-step correspondence under ASan on hostile streams",
+ "C09": "Lean 4 proof (decode (serialize r) = r; request serialiser exact) + lock-step correspondence on generated well-formed responses and segmentations",
+ "C11": "Lean 4 proof (refinement to SP 800-90A HMAC_DRBG with the reseed schedule as an invariant) + extracted constants + lock-step correspondence with scripted OS entropy",
+ "C12": "Lean 4 proof (refinement of array/queue/map/pool models with mod-2^64 size arithmetic to ideal containers) + lock-step correspondence",
+ "C14": "Lean 4 proof (failed operation = identity on abstract and concrete state, for every allocation oracle) + fault enumeration of every k-th allocation against the model",
+ "C15": "Lean 4 proof (bounds-checked models never return oob; results in range) + exact-size-buffer runs of the real parsers under ASan",
+ "C16": "Lean 4 proof (strto* model = numeral language value/saturation; PARSENUM case analysis per target type) + lock-step correspondence",
+ "C17": "Lean 4 proof (round-trip and exact-acceptance theorems; JSON skip/find refinement over an inductive document type) + lock-step correspondence",
+ "C18": "Lean 4 proof (model of getopt.c = recursive-descent grammar; reset = fresh parse) + exhaustive and random correspondence",
+ "C19": "Lean 4 proof (the four asprintf layouts are instances of published SigV4 on structured requests) + lock-step correspondence with a scripted clock",
+}
+
+def from_notes(pid):
+    """level text / note taken from notes/Cxx.md written by whoever built the check"""
+    import re
+    path = os.path.join(HERE, "notes", pid + ".md")
+    if not os.path.exists(path):
+        return None
+    txt = open(path).read()
+    secs = re.split(r"^#+\s+", txt, flags=re.M)
+    level, trusted = None, None
+    for sec in secs:
+        head, _, body = sec.partition("\n")
+        if "MANIFEST" in head.upper() and level is None:
+            level = " ".join(body.strip().strip('"`').split())
+            level = re.sub(r"^[`\"]*proof[`\"]*\s*[—-]+\s*", "", level)
+        if re.search(r"trusted|not verified|not covered|modelled rather", head, re.I) and trusted is None:
+            trusted = " ".join(body.strip().split())
+    if not level:
+        return None
+    return dict(text=level[:1800], note=PROOF_NOTE + (trusted or "")[:1500],
+                technique=TECHNIQUE.get(pid, "Lean 4 proof + model/implementation correspondence"), design_ref="5/%s, 12.2" % pid)
+
 def main():
     props = [json.loads(l) for l in open(os.path.join(HERE, "properties.jsonl"))]
     checks, na = [], []
     for p in props:
         pid = p["id"]
+        if pid not in CLAIMS and os.path.exists(os.path.join(HERE, "tools", "props", pid.lower() + ".py")):
+            n = from_notes(pid)
+            if n:
+                CLAIMS[pid] = n
         if pid in CLAIMS and os.path.exists(os.path.join(HERE, "tools", "props", pid.lower() + ".py")):
             c = CLAIMS[pid]
             checks.append({
